@@ -323,6 +323,12 @@ class KFLWorld(engine.World):
     with ctx.sut("apply_gradients"):
       opt.apply_gradients(gv)
     ctx.steps += 1
+    # The optimizer protocol has now applied every constraint the layer
+    # attached to the updated variables - whether or not the layer attached the
+    # ones its configuration calls for.
+    for n in chosen:
+      if n in self.dirty:
+        self.dirty[n] = False
     if (ev["family"] == "legacy" and "kernel" in chosen and "scale" in chosen
         and chosen.index("kernel") < chosen.index("scale")):
       ctx.reach("legacy_kernel_before_scale")
@@ -334,7 +340,9 @@ class KFLWorld(engine.World):
   def _ev_manual(self, ev, ctx):
     v = self.vars[ev["var"]]
     if v.constraint is None:
+      # Nothing is attached, so "the constraint has been applied" holds.
       ctx.count("noop:manual_without_constraint")
+      self.dirty[ev["var"]] = False
       return
     for _ in range(int(ev.get("times", 1))):
       with ctx.sut("manual_constraint"):
